@@ -29,12 +29,12 @@ META = {
 def check(ctx):
     ctx.consult('config/config.py', 'plssdesc/plssdesc.py', 'plssdesc/plss_parse.py',
                 'tract/tract.py', 'containers/containers.py')
-    _codec(ctx)
-    _setters(ctx)
-    _lock_plssdesc(ctx)
-    _lock_tract(ctx)
-    _forwarding(ctx)
-    _deadparam(ctx)
+    ctx.attempt(_codec)
+    ctx.attempt(_setters)
+    ctx.attempt(_lock_plssdesc)
+    ctx.attempt(_lock_tract)
+    ctx.attempt(_forwarding)
+    ctx.attempt(_deadparam)
 
 
 def _cfg(ctx, a):
@@ -251,7 +251,7 @@ def _lock_plssdesc(ctx):
     extra = set(fi.params()) - covered
     ctx.check(not extra, 'LOCK', 'PLSSDesc.parse: every keyword is covered by the LOCK table',
               detail_bad=f"new parse() keywords without a rule: {sorted(extra)}", key="LOCK|PLSSDesc.parse|table")
-    _lock(ctx, fi, kw, mapping, 'PLSSDesc')
+    ctx.attempt(_lock, fi, kw, mapping, 'PLSSDesc')
     ctx.floor('PLSSDesc.parse keywords', len(fi.params()), 16)
     # parser keywords exist
     pp = ctx.repo.func('PLSSParser.__init__')
@@ -292,7 +292,7 @@ def _lock_tract(ctx):
               detail_bad=f"new parse() keywords without a rule: {sorted(extra)}", key="LOCK|Tract.parse|table")
     # qq_depth is special: the parser receives the keyword itself; the attribute
     # fallback is folded into min/max
-    _lock(ctx, fi, kw, {k: v for k, v in mapping.items() if k != 'qq_depth'}, 'Tract')
+    ctx.attempt(_lock, fi, kw, {k: v for k, v in mapping.items() if k != 'qq_depth'}, 'Tract')
     prov = flow.provenance(fi.node, kw['qq_depth']) if 'qq_depth' in kw else set()
     ctx.check('qq_depth' in flow.prov_params(prov), 'LOCK', 'Tract.parse: keyword qq_depth reaches the parser',
               detail_bad="qq_depth keyword dropped", key="LOCK|Tract.parse|qq_depth")
